@@ -9,3 +9,4 @@ for id in $ids; do
   echo "$id exit=$rc $(( $(date +%s) - s ))s $(echo "$out" | grep -c '^VIOLATION') violations $(echo "$out" | grep -c '^KNOWN-FINDING') known $(echo "$out" | grep -c '^INCONCLUSIVE\|^ENGINE-ERROR') problems"
   [ $rc -ne 0 ] && echo "$out" | grep '^VIOLATION\|^INCONCLUSIVE\|^ENGINE-ERROR' | cut -c1-300
 done
+exit 0
